@@ -1,7 +1,7 @@
 """C15 (a complete report or a clean error, never a crash) and C16 (deterministic, canonically ordered output)."""
 import os, json, re, datetime, subprocess, shutil, binascii, glob, stat
 from fractions import Fraction as F
-from . import run, build, ledger, gen, ledgerk as K, compare
+from . import run, build, ledger, gen, ledgerk as K, compare, classes
 from .ledger import Line
 from .props_ledger2 import load_known_text
 
@@ -280,7 +280,7 @@ def k_c15(ctx):
         if x.get("stage") == "panic":
             if "overflow" in x.get("error", "").lower() or "Division by zero" in x.get("error", ""):
                 kt = load_known_text("C15", "kf_decimal_overflow")
-                if kt and "overflow" in x.get("error", "").lower(): ctx.known(kt); continue
+                if kt and "overflow" in x.get("error", "").lower() and classes.extreme_magnitudes(d): ctx.known(kt); continue
             ctx.violation("library entry point panics: %s" % x.get("error", "")[:160], {"input_hex": hexb(d), "input_text": d.decode("utf-8", "replace")[:600], "code": x}, found_input=True)
     # (b2) hostile broker exports: well-formed JSON whose fields sit at the ends of what the converter's types hold
     HD = ["01/03/-262143", "01/01/-262143", "12/31/262142", "12/25/262142", "01/01/0001", "12/31/9999", "02/29/2023", "02/29/2024", "13/01/2024", "00/10/2024",
@@ -330,15 +330,15 @@ def k_c15(ctx):
         if x.get("stage") == "panic":
             if "overflow" in x.get("error", "").lower() and "Decimal" in x.get("error", "") or "Multiplication overflowed" in x.get("error", "") or "Addition overflowed" in x.get("error", ""):
                 kt = load_known_text("C15", "kf_decimal_overflow")
-                if kt: ctx.known(kt); continue
+                if kt and classes.extreme_magnitudes(c["transactions_json"] + (c.get("awards_json") or "")): ctx.known(kt); continue
             ctx.violation("the Schwab converter panics: %s" % x.get("error", "")[:160], {"transactions_json": c["transactions_json"], "awards_json": c.get("awards_json"), "code": x}, found_input=True)
     # (c) the CLI as a process
     root = os.path.join(build.CACHE, "run", "c15-%d" % os.getpid()); shutil.rmtree(root, ignore_errors=True); os.makedirs(root)
     try:
-        def check_failure_clean(what, rc, out, err, wd, sentinel=None):
+        def check_failure_clean(what, rc, out, err, wd, sentinel=None, data=b""):
             if rc == "timeout": ctx.violation("%s: hangs (no exit within the time limit)" % what, {"workdir_listing": os.listdir(wd)}, found_input=True); return False
             if rc not in (0, 1, 2):
-                if rc == 101 and b"overflow" in err.lower():
+                if rc == 101 and b"overflow" in err.lower() and classes.extreme_magnitudes(data):
                     kt = load_known_text("C15", "kf_decimal_overflow")
                     if kt: ctx.known(kt); return True
                 ctx.violation("%s: abnormal exit status %s: %s" % (what, rc, err[-200:].decode("utf-8", "replace")), {"stderr": err[-400:].decode("utf-8", "replace")}, found_input=True); return False
@@ -361,7 +361,7 @@ def k_c15(ctx):
             else: args = ["report", "in.cgt", "--format", fmt, "--output", "out.txt"]
             rc, out, err = cli(args, wd)
             ctx.evaluations += 1; ctx.count("cli_" + kind, rc); ctx.nontrivial.add((kind, data[:200]))
-            check_failure_clean("cgt-tool %s on %s input" % (" ".join(args), kind), rc, out, err, wd, sent if cmdk == "report-output" else None)
+            check_failure_clean("cgt-tool %s on %s input" % (" ".join(args), kind), rc, out, err, wd, sent if cmdk == "report-output" else None, data=data)
         # faults
         good = b"2024-01-01 BUY A 10 @ 1\n2024-06-01 SELL A 5 @ 2\n"
         def fresh():
